@@ -610,6 +610,9 @@ func (e *Expression) unwrapOneof(obj proto.Message) proto.Message {
 //
 // See documentation: https://hl7.org/fhir/R4/fhirpatch.html#concept.
 func Add(resource fhir.Resource, path, name string, value fhir.Base, opts *Options) error {
+	if opts == nil {
+		opts = &Options{}
+	}
 	expr, err := Compile(path, opts.CompileOpts...)
 	if err != nil {
 		return err
